@@ -1,8 +1,12 @@
 """C23 — system resource manager: Lean transition-system proofs + line-by-line correspondence of the model
 with the REAL EbSystemResourceManager.c (sequential API calls plus really-blocking background calls) +
-the property's own oracle evaluated on the real outputs."""
+the property's own oracle evaluated on the real outputs + the atomicity obligation (lock/access table regenerated from the C
+source by xlate/srmlocks.py, `decide`d by C23.srm_steps_atomic / srm_steps_shape) + race stress of conflicting operation pairs
+on the real code, free-running and with the library's seeded perturbation hook widening the windows in front of every lock."""
 import os
 import subprocess
+import sys
+import time
 from . import common as C
 
 LEVEL = "proof"
@@ -27,15 +31,87 @@ def build_stress():
                                                                                         "Source/Lib/Common/Codec/EbSystemResourceManager.h"])])
 
 
-def run_stress(chk, sexe, configs):
+def build_race():
+    srcs = [os.path.join(C.VERIF, "harness", "srm_race.c")] + [os.path.join(CODEC, f) for f in ("EbThreads.c", "EbMalloc.c", "EbLog.c")]
+    srcs = [s for s in srcs if os.path.exists(s)]
+    return C.compile_harness("srm_race", srcs, extra=["-DC23_KEY=\"%s\"" % C.repo_hash(["Source/Lib/Common/Codec/EbSystemResourceManager.c",
+                                                                                      "Source/Lib/Common/Codec/EbSystemResourceManager.h"])])
+
+
+def regenerate_locks():
+    """xlate/srmlocks.py: EbSystemResourceManager.c -> lean/SvtVerif/Gen/SrmLocks.lean.  Returns (table, stats, diagnosis, error)."""
+    sys.path.insert(0, os.path.join(C.VERIF, "xlate"))
+    import cfun
+    import srmlocks
+    try:
+        table, _helpers = srmlocks.main(os.path.join(C.LEAN, "SvtVerif/Gen/SrmLocks.lean"))
+    except cfun.Unsupported as e:
+        return None, {}, [], str(e)
+    return table, srmlocks.stats(table), srmlocks.explain(table), ""
+
+
+RACE_SCENARIOS = ["inc_rel", "inc_inc", "shared_refs", "ren_rel", "get_rel"]
+RACE_WHAT = {
+    "inc_rel": "svt_object_inc_live_count vs svt_release_object on one wrapper; final count exact; returns to the pool exactly at the last release",
+    "inc_inc": "svt_object_inc_live_count vs svt_object_inc_live_count on one wrapper; final count = sum of increments",
+    "shared_refs": "per-thread {inc; release} pairs + final release on one shared wrapper; back in the pool exactly once, never early",
+    "ren_rel": "svt_object_release_disable vs svt_release_object of the last reference; returned xor kept-with-count-0; pool conserved every round",
+    "get_rel": "svt_get_empty_object (blocking, fewer objects than threads) vs svt_release_object; exclusive hand-out, no hang, pool conserved",
+    "post_get": "harness/srm_stress under perturbation: svt_post_full_object vs svt_get_full_object from several consumers + shutdown",
+}
+
+
+def race_plan(chk):
+    """[(scenario, seed, threads, iters, perturb-or-None)] -- every scenario free-running and with forced windows."""
+    quick = chk.tier == "quick"
+    plan = []
+    for sc in RACE_SCENARIOS:
+        # perturbed runs sleep in front of every lock: a few hundred iterations already force thousands of overlapping windows
+        # (the seeded read-before-lock loses > 50 % of the updates there); kept small because sleeps stretch under machine load
+        free_it = {"ren_rel": 15000 if quick else 200000}.get(sc, 200000 if quick else 1500000)
+        pert_it = {"get_rel": 250 if quick else 4000, "ren_rel": 200 if quick else 5000}.get(sc, 500 if quick else 8000)
+        for rep in range(1 if quick else 3):
+            plan.append((sc, chk.rng.below(1 << 30), chk.rng.range(2, 4), free_it, None))
+            plan.append((sc, chk.rng.below(1 << 30), chk.rng.range(2, 4), pert_it, "%d:50:200" % chk.rng.range(1, 1 << 20)))
+    return plan
+
+
+def run_race_one(rexe, item):
+    sc, seed, thr, iters, pert = item
+    env = {"SVT_VERIF_PERTURB": pert} if pert else {"SVT_VERIF_PERTURB": ""}
+    rc, out = C.sh([rexe, sc, str(seed), str(thr), str(iters)], timeout=400, env=env)
+    ok = rc == 0 and out.startswith("ok")
+    return item, ok, out.strip()[-600:]
+
+
+def race_text(item, out):
+    sc, seed, thr, iters, pert = item
+    return ("the REAL system resource manager violates the property under a race of conflicting operations\n"
+            "race: %s %d %d %d %s\n(scenario seed threads iterations SVT_VERIF_PERTURB-or-'-'; scenario = %s)\n"
+            "output of harness/srm_race on the real code: %s\n"
+            "replay: bin/check C23 --replay <this file>\n" % (sc, seed, thr, iters, pert or "-", RACE_WHAT.get(sc, ""), out))
+
+
+def run_race(chk, rexe, plan):
+    """Returns (results, first failure text or None)."""
+    res = C.run_parallel(lambda it: run_race_one(rexe, it), plan, workers=4)
+    fail = None
+    for item, ok, out in res:
+        if not ok and fail is None:
+            fail = race_text(item, out)
+    return res, fail
+
+
+def run_stress(chk, sexe, configs, perturb=None):
     """N producers / M consumers on the real SRM; returns (runs, objects moved, failure text or None)."""
     moved = 0
     for n, cfg in enumerate(configs):
-        rc, out = C.sh([sexe] + [str(x) for x in cfg], timeout=180)
+        rc, out = C.sh([sexe] + [str(x) for x in cfg], timeout=180, env={"SVT_VERIF_PERTURB": perturb or ""})
         if rc != 0 or not out.startswith("ok"):
             return n + 1, moved, ("the REAL system resource manager violates the property under real concurrency\n"
-                                  "stress: %s\n(seed nObj nProducers nConsumers postsPerProducer serialisePosts)\noutput: %s\n"
-                                  "replay: bin/check C23 --replay <this file>\n" % (" ".join(str(x) for x in cfg), out.strip()[-400:]))
+                                  "stress: %s\n(seed nObj nProducers nConsumers postsPerProducer serialisePosts)%s\noutput: %s\n"
+                                  "replay: bin/check C23 --replay <this file>\n" % (" ".join(str(x) for x in cfg),
+                                                                                   "\nperturb: %s" % perturb if perturb else "", out.strip()[-400:]))
         moved += cfg[2] * cfg[4]
     return len(configs), moved, None
 
@@ -391,16 +467,36 @@ def gen_cb_stream(rng, nops):
     return ops
 
 
-def run(chk, replay_ops=None, replay_stress=None):
+def run(chk, replay_ops=None, replay_stress=None, replay_race=None):
+    # the lock/access table is regenerated from the current source BEFORE the proofs are built (srm_steps_atomic decides it)
+    timing = {}
+    t0 = time.time()
+
+    def lap(name):
+        nonlocal t0
+        timing[name] = round(timing.get(name, 0) + time.time() - t0, 1)
+        t0 = time.time()
+    ltable, lstats, ldiag, lerr = regenerate_locks()
+    lap("regenerate_lock_table")
     pr = chk.proofs(MODULE, trusted_extra=[
+        "xlate/srmlocks.py: clang-14 JSON AST of EbSystemResourceManager.c -> ordered lock/unlock/semaphore/read/write events of every path of every "
+        "non-constructor function (helpers inlined, loops unrolled 0/1/2 with a lock-neutrality check, pure if/else branches joined); refuses on anything outside its whitelist; "
+        "constructors/destructors are exempt (single-threaded construction)",
+        "Model/LockDiscipline.lean: hand-written protection map (live_count/release_enable -> empty queue lockout_mutex of the owning resource; fifo first/last/quit and next_ptr links -> "
+        "the fifo's lockout_mutex; ring head/tail/count/slots -> the muxing queue's lockout_mutex; everything else immutable after construction) and the allow-list "
+        "(svt_get_empty_object c617/c620: stores to a wrapper this thread has just unlinked and nobody else references)",
+        "that the fifo sections nested inside a queue section commute with other threads' steps on that fifo is argued from disjointness, not mechanised",
+        "harness/srm_race.c: conflicting operation pairs on the real SRM, free-running and under SVT_VERIF_PERTURB (EbThreads.c hook) with exact end-state oracles",
         "Model/Srm.lean: hand transcription of EbSystemResourceManager.c at mutex granularity (each Op = one critical section or one semaphore operation); "
         "pthread mutex/semaphore assumed sequentially consistent and atomic; one thread per EbFifo",
         "harness/srm_stress.c: N producer / M consumer pthreads on the real SRM with a 20 s watchdog (hang = violation)",
         "harness/srm_seq.c: #includes the real EbSystemResourceManager.c, links real EbThreads.c/EbMalloc.c/EbLog.c; prints returned object / NULL / shutdown and a digest of the real "
         "rings, fifo lists, semaphore values, quit flags, live counts after every call; blocking calls run on real pthreads",
         "the svt_muxing_queue_assignation loop is treated as one atomic step (it runs entirely under the queue's lockout mutex)"])
+    lap("lake_build_and_axiom_audit")
     mexe = C.ensure_driver()
     hexe = build_harness()
+    lap("driver_and_harness_build")
     quick = chk.tier == "quick"
     target_ops = 80000 if quick else 1200000
     nobj_max = 4 if quick else 6
@@ -445,8 +541,8 @@ def run(chk, replay_ops=None, replay_stress=None):
                         shut_wakes += 1
             prevB = B
 
-    def handle(ops, mode):
-        fail, kops, ro, kmo = evaluate(mexe, hexe, ops)
+    def handle(ops, mode, pre=None):
+        fail, kops, ro, kmo = pre if pre is not None else evaluate(mexe, hexe, ops)
         account(kops, ro)
         if fail:
             # find the failing block and shrink it
@@ -467,10 +563,42 @@ def run(chk, replay_ops=None, replay_stress=None):
                 "the REAL system resource manager violates the property" if fail[0] == "oracle"
                 else "model and real SRM disagree (the real outputs still satisfy the property oracle)", fail, kops, ro, kmo)))
 
+    def gen_stream(arg):
+        """One generator stream (own PRNG derived from the run's seed, own interactive model process).  The streams run
+        concurrently only to overlap the per-line round-trip latency with the model process; what they generate depends on
+        VERIF_SEED alone."""
+        seed, n_ops, first_mode = arg
+        rng = C.Rng(seed)
+        model = Model(mexe)
+        batches, batch, skips, modes = [], [], {}, {}
+        mode_cycle = ["valid", "valid", "block", "shut", "malformed", "nb1", "block", "valid"]
+        mi, total = first_mode, 0
+        try:
+            while total < n_ops:
+                mode = mode_cycle[mi % len(mode_cycle)]
+                mi += 1
+                ops, outs, sk = gen_sequence(rng, model, mode, nobj_max, rng.range(20, 160))
+                for k, v in sk.items():
+                    skips[k] = skips.get(k, 0) + v
+                modes[mode] = modes.get(mode, 0) + 1
+                batch += ops
+                total += len(ops)
+                if len(batch) >= 4000:
+                    batches.append(batch)
+                    batch = []
+            if batch:
+                batches.append(batch)
+        finally:
+            model.close()
+        return batches, skips, modes
+
     stress_runs = stress_moved = 0
     stress_fail = None
-    if replay_stress is not None:
-        stress_runs, stress_moved, stress_fail = run_stress(chk, build_stress(), [replay_stress])
+    race_res, race_fail = [], None
+    if replay_race is not None:
+        race_res, race_fail = run_race(chk, build_race(), [replay_race])
+    elif replay_stress is not None:
+        stress_runs, stress_moved, stress_fail = run_stress(chk, build_stress(), [replay_stress[0]], perturb=replay_stress[1])
     elif replay_ops is not None:
         handle(replay_ops, "replay")
     else:
@@ -482,37 +610,44 @@ def run(chk, replay_ops=None, replay_stress=None):
                     ops = read_ops(os.path.join(cdir, fn))
                     if ops:
                         handle(ops, "corpus:" + fn)
-        model = Model(mexe)
-        batch, batch_n = [], 0
-        mode_cycle = ["valid", "valid", "block", "shut", "malformed", "nb1", "block", "valid"]
-        mi = 0
-        total = 0
-        try:
-            while total < target_ops:
-                mode = mode_cycle[mi % len(mode_cycle)]
-                mi += 1
-                ops, outs, skips = gen_sequence(chk.rng, model, mode, nobj_max, chk.rng.range(20, 160))
-                for k, v in skips.items():
-                    skips_all[k] = skips_all.get(k, 0) + v
-                modes_n[mode] = modes_n.get(mode, 0) + 1
-                batch += ops
-                total += len(ops)
-                if len(batch) >= 4000:
-                    handle(batch, "generated")
-                    batch = []
-                    if failures:
-                        break
-            if batch and not failures:
-                handle(batch, "generated")
-        finally:
-            model.close()
+        nstreams = 4
+        streams = C.run_parallel(gen_stream, [(chk.rng.next(), (target_ops + nstreams - 1) // nstreams, 3 * i) for i in range(nstreams)], workers=nstreams)
+        lap("sequence_generation(4 streams)")
+        batches = []
+        for bs, sk, md in streams:
+            batches += bs
+            for k, v in sk.items():
+                skips_all[k] = skips_all.get(k, 0) + v
+            for k, v in md.items():
+                modes_n[k] = modes_n.get(k, 0) + v
+        # model (batch) and REAL code on every batch, 4 at a time; accounting / verdicts in order
+        for i in range(0, len(batches), 8):
+            chunk = batches[i:i + 8]
+            for ops, pre in zip(chunk, C.run_parallel(lambda b: evaluate(mexe, hexe, b), chunk, workers=4)):
+                handle(ops, "generated", pre=pre)
+            if failures:
+                break
         if not failures:
             handle(gen_cb_stream(chk.rng, 4000 if quick else 40000), "circbuf")
+        lap("sequential_correspondence")
         if not failures:
             cfgs = [(chk.rng.below(1 << 30), chk.rng.range(1, 8), chk.rng.range(1, 4), chk.rng.range(1, 4),
                      chk.rng.choice([2000, 10000, 30000] if quick else [10000, 50000, 150000]), chk.rng.below(2))
                     for _ in range(6 if quick else 60)]
             stress_runs, stress_moved, stress_fail = run_stress(chk, build_stress(), cfgs)
+            if not stress_fail:
+                # post_full vs get_full from several consumers with the windows in front of every lock / semaphore widened
+                pcfgs = [(chk.rng.below(1 << 30), chk.rng.range(1, 4), chk.rng.range(1, 3), chk.rng.range(2, 4),
+                          chk.rng.choice([150, 300] if quick else [1000, 3000]), chk.rng.below(2)) for _ in range(2 if quick else 10)]
+                pert = "%d:40:150" % chk.rng.range(1, 1 << 20)
+                n2, m2, stress_fail = run_stress(chk, build_stress(), pcfgs, perturb=pert)
+                stress_runs += n2
+                stress_moved += m2
+                chk.cov["stress_runs_perturbed"] = {"runs": n2, "objects": m2, "SVT_VERIF_PERTURB": pert, "what": RACE_WHAT["post_get"]}
+        lap("producer_consumer_stress")
+        if not failures and not stress_fail:
+            race_res, race_fail = run_race(chk, build_race(), race_plan(chk))
+        lap("race_stress")
 
     chk.cov["evaluations"] = n_eval
     chk.cov["distinct_nontrivial"] = len(distinct)
@@ -529,6 +664,14 @@ def run(chk, replay_ops=None, replay_stress=None):
     chk.cov["stress_runs(real pthreads)"] = stress_runs
     chk.cov["stress_objects_posted_and_consumed"] = stress_moved
     chk.cov["disagreements_checked"] = n_eval
+    chk.cov["lock_table"] = dict(lstats, translator_error=lerr, discipline_diagnosis=ldiag[:6],
+                                 note="events of every path of every API function of EbSystemResourceManager.c; protected_accesses = reads/writes of mutex-guarded members")
+    chk.cov["race_scenarios"] = [{"scenario": it[0], "seed": it[1], "threads": it[2], "iterations": it[3], "perturb": it[4] or "free-running",
+                                  "result": out[:160]} for it, ok, out in race_res]
+    chk.cov["timing_s"] = timing
+    chk.cov["race_runs"] = len(race_res)
+    chk.cov["race_iterations_total"] = sum(it[2] * it[3] for it, _, _ in race_res)
+    chk.cov["race_scenarios_what"] = RACE_WHAT
     chk.sample({"note": "every executed line: real result + real state digest == model result + model state"})
     chk.assumptions += [
         "one thread per EbFifo at a time (a fifo handle belongs to one process context)",
@@ -538,14 +681,30 @@ def run(chk, replay_ops=None, replay_stress=None):
 
     real_viol = [f for f in failures if f[0] == "oracle"]
     corr = [f for f in failures if f[0] == "corr"]
+    broken = ""
+    if ltable is None:
+        broken += "(also: xlate/srmlocks.py refused the current EbSystemResourceManager.c: %s)\n" % lerr
+    if not pr.ok:
+        broken += "(also: proof obligations of %s no longer check: %s)\n" % (MODULE, "; ".join("%s: %s" % (k, str(v)[:160]) for k, v in pr.failed.items()))
+    if ldiag:
+        broken += "(lock-discipline diagnosis of the current source: %s)\n" % " | ".join(ldiag[:4])
     if real_viol:
         chk.violation(real_viol[0][2])
     elif stress_fail:
-        chk.violation(stress_fail, tag="stress")
+        chk.violation(stress_fail + broken, tag="stress")
+    elif race_fail:
+        chk.violation(race_fail + broken, tag="race")
+    elif ltable is None:
+        chk.violation("the lock-discipline translator refused the current source, so C23.srm_steps_atomic / srm_steps_shape say nothing about it:\n%s\n"
+                      "no failing run found: %d calls checked by the oracle, %d race runs (%d thread-iterations) and %d stress runs on the real SRM all satisfied the property\n" %
+                      (lerr, n_eval, len(race_res), sum(it[2] * it[3] for it, _, _ in race_res), stress_runs), tag="xlate", found_input=False)
     elif not pr.ok:
-        chk.violation("proof obligations of %s no longer check:\n%s\nforbidden tokens: %s\n"
-                      "no input found on which the real SRM violates the property (%d calls executed and checked by the oracle)\n" %
-                      (MODULE, "\n".join("%s: %s" % kv for kv in pr.failed.items()), pr.forbidden, n_eval), tag="proof", found_input=False)
+        chk.violation("proof obligations of %s no longer check:\n%s\nforbidden tokens: %s\n%s"
+                      "no input found on which the real SRM violates the property (%d calls executed and checked by the oracle; %d race runs, %d thread-iterations, "
+                      "and %d stress runs on the real SRM all satisfied it)\n" %
+                      (MODULE, "\n".join("%s: %s" % kv for kv in pr.failed.items()), pr.forbidden,
+                       ("lock-discipline diagnosis (python mirror of LockDiscipline.disciplined on the regenerated table):\n  " + "\n  ".join(ldiag[:8]) + "\n") if ldiag else "",
+                       n_eval, len(race_res), sum(it[2] * it[3] for it, _, _ in race_res), stress_runs), tag="proof", found_input=False)
     elif corr:
         chk.violation(corr[0][2], tag="corr", found_input=False)
 
@@ -565,9 +724,14 @@ def read_ops(path):
 
 
 def replay(chk, path):
-    for line in open(path):
+    lines = open(path).read().split("\n")
+    for line in lines:
+        if line.startswith("race: "):
+            w = line[6:].split()
+            return run(chk, replay_race=(w[0], int(w[1]), int(w[2]), int(w[3]), None if w[4] == "-" else w[4]))
         if line.startswith("stress: "):
-            return run(chk, replay_stress=tuple(int(x) for x in line[8:].split()))
+            pert = [l[9:].strip() for l in lines if l.startswith("perturb: ")]
+            return run(chk, replay_stress=(tuple(int(x) for x in line[8:].split()), pert[0] if pert else None))
     ops = read_ops(path)
     if ops:
         run(chk, replay_ops=ops)
